@@ -112,7 +112,7 @@ class CHECK(vlib.Check):
                 "object pool; character tables and marker characters regenerated from the source by the translator. "
                 "libc regcomp/regexec is modelled by Pat/Ere.v (parser following glibc's for RE_SYNTAX_POSIX_EXTENDED + "
                 "derivative matcher with anchors) and compared with the real libc on every generated pattern; regex "
-                "strings outside that model (intervals {..}, + ?, [: :] classes, \\b \\B \\< \\> \\` \\' and "
+                "strings outside that model (intervals {..}, [: :] classes, \\b \\B \\< \\> \\` \\' and "
                 "back-references) are marked U and only their regex-independent observables are compared. "
                 "Not modelled: ToString, MakeRegexCaseInsensitive, PathMatcher/SegmentedStringMatcher glue.")
     premises = ["engine_is_ere: libc regcomp(REG_EXTENDED)/regexec agree with Pat/Ere.v (ere_compile/ere_exec) on the regex "
@@ -206,7 +206,7 @@ class CHECK(vlib.Check):
             if kind == "wild": return rng.choice(["a*", "?", "*", "[a-c]x", "(a|b)c", "a,b", "5,7", "*5*"])
             if kind == "neg": return rng.choice(["~a*", "~abc", "~", "~5", "~<3>", "~~a"])
             if kind == "bad": return rng.choice(["(", "[a", "a)|(", "[b-a]", "\\1", "(()"])
-            if kind == "raw": return rng.choice(["`a.*", "`^a$", "`[0-9]", "`", "~`a", "`(a|b)c"])
+            if kind == "raw": return rng.choice(["`a.*", "`^a$", "`[0-9]", "`", "~`a", "`(a|b)c", "`a+b", "`ab?c", "`(a|b)+", "`a+?", "`+a", "`a{2}", "`[ab]+c?"])
             return gen_valid(rng)
         kinds = ["range", "plain", "wild", "neg", "bad", "raw", "any"]
         for _ in range(700 if quick else 8000):
